@@ -194,7 +194,7 @@ fn write_to_path(c: &S) -> S {
 /// Runs one configuration on its own thread; `None` when it has not finished within the watchdog time
 /// (a deadlocked run: its threads are left behind, blocked).
 fn with_watchdog<F: FnOnce() -> Outcome + Send + 'static>(f: F) -> Option<Outcome> {
-    let secs = std::env::var("VERIF_C11_WATCHDOG").ok().and_then(|v| v.parse().ok()).unwrap_or(20u64);
+    let secs = std::env::var("VERIF_C11_WATCHDOG").ok().and_then(|v| v.parse().ok()).unwrap_or(10u64);
     let (tx, rx) = std::sync::mpsc::channel();
     std::thread::spawn(move || {
         let r = std::panic::catch_unwind(std::panic::AssertUnwindSafe(f));
@@ -207,6 +207,11 @@ fn with_watchdog<F: FnOnce() -> Outcome + Send + 'static>(f: F) -> Option<Outcom
     }
 }
 
+/// stop running further configurations when the reference run or two others did not finish
+fn give_up(results: &[Option<Outcome>]) -> bool {
+    (!results.is_empty() && results[0].is_none()) || results.iter().filter(|r| r.is_none()).count() >= 2
+}
+
 fn run(c: &S) -> S {
     let kind = c.at(0).u32();
     if kind >= 10 {
@@ -216,11 +221,15 @@ fn run(c: &S) -> S {
     let sizes = std::sync::Arc::new(get_sizes(c.at(2)));
     let cfgs: Vec<Cfg> = c.at(4).l().iter().map(get_cfg).collect();
     let two_pass = kind == 1 || kind == 3;
+    let ncfg = cfgs.len();
     let mut results: Vec<Option<Outcome>> = Vec::with_capacity(cfgs.len());
     if kind < 2 {
         let items = std::sync::Arc::new(bw_items(c.at(3)));
         let t = std::sync::Arc::new(text_input(&bw_lines(&items)));
         for cfg in cfgs {
+            if give_up(&results) {
+                break;
+            }
             set_delay_seed(cfg.seed);
             let (o, sizes, items, t) = (o.clone(), sizes.clone(), items.clone(), t.clone());
             results.push(with_watchdog(move || run_bw(two_pass, &o, &cfg, &sizes, &items, &t)));
@@ -229,6 +238,9 @@ fn run(c: &S) -> S {
         let items = std::sync::Arc::new(bb_items(c.at(3)));
         let t = std::sync::Arc::new(text_input(&bb_lines(&items)));
         for cfg in cfgs {
+            if give_up(&results) {
+                break;
+            }
             set_delay_seed(cfg.seed);
             let (o, sizes, items, t) = (o.clone(), sizes.clone(), items.clone(), t.clone());
             results.push(with_watchdog(move || run_bb(two_pass, &o, &cfg, &sizes, &items, &t)));
@@ -238,6 +250,10 @@ fn run(c: &S) -> S {
     let Some(reference) = results[0].clone() else {
         return sl![a(3)];
     };
+    // configurations not run because earlier ones deadlocked are reported as not finished too
+    while results.len() < ncfg {
+        results.push(None);
+    }
     let ds: Vec<S> = results
         .iter()
         .enumerate()
